@@ -334,7 +334,9 @@ func needSep(prev, next string) bool {
 }
 
 var commentWords = []string{"a comment", "x", "", "{ brace", "} brace", "it's", "say \"hi\"", "back`tick", "ünï©ode 世界",
-	"A = b", "// nested", "/* nested", "[a-z]", "%{x}", "#{", ";", "  spaced  ", "\ttab", "*", "* /", "/"}
+	"A = b", "// nested", "/* nested", "[a-z]", "%{x}", "#{", ";", "  spaced  ", "\ttab", "*", "* /", "/",
+	// only \n is a line end: a carriage return, a form feed, a vertical tab or U+2028 inside a comment are just characters
+	"a\rb", "\r", " cr at the end\r", "\f", "\v", "x\u2028y", "\r \r"}
 
 func (p *printer) lineComment() string {
 	w := commentWords[p.r.Intn(len(commentWords))]
